@@ -2,7 +2,9 @@ package rules
 
 import (
 	"fmt"
+	"go/constant"
 	"go/token"
+	"go/types"
 	"regexp"
 	"sort"
 	"strings"
@@ -118,6 +120,46 @@ func checkClassCoverage(c *core.Ctx, handlers []handlerRef) {
 			}
 		}
 		scan(fn, map[ssa.Value]bool{}, 0)
+		// the sign of a class is the sign bit: -0 and +0 are different classes, and an ordering
+		// comparison of the value with 0 calls both non-negative
+		{
+			var ord *ssa.BinOp
+			var visit func(f *ssa.Function, depth int, seenF map[*ssa.Function]bool)
+			visit = func(f *ssa.Function, depth int, seenF map[*ssa.Function]bool) {
+				if f == nil || seenF[f] || depth > 2 || len(f.Blocks) == 0 {
+					return
+				}
+				seenF[f] = true
+				for _, b := range f.Blocks {
+					for _, in := range b.Instrs {
+						switch x := in.(type) {
+						case *ssa.BinOp:
+							switch x.Op {
+							case token.LSS, token.LEQ, token.GTR, token.GEQ:
+								bt, isB := x.X.Type().Underlying().(*types.Basic)
+								if !isB || bt.Info()&types.IsFloat == 0 {
+									continue
+								}
+								for _, o := range []ssa.Value{x.X, x.Y} {
+									if k, isC := o.(*ssa.Const); isC && k.Value != nil && constant.Sign(k.Value) == 0 && ord == nil {
+										ord = x
+									}
+								}
+							}
+						case *ssa.Call:
+							if cal := x.Call.StaticCallee(); cal != nil && cal.Pkg == f.Pkg {
+								visit(cal, depth+1, seenF)
+							}
+						}
+					}
+				}
+			}
+			visit(fn, 0, map[*ssa.Function]bool{})
+			st.Ob(ord == nil)
+			if ord != nil {
+				c.ReportAt("R03.43", ord.Parent(), ord.Pos(), "class-sign-by-comparison:"+h.name, core.FuncName(fn)+" ("+strings.Join(h.insts, ", ")+") decides the sign of a class with the float comparison "+ord.Op.String()+" 0: -0.0 is not below zero, so negative zero (0x80000000) is classified as +0 (class bit 6 instead of 5); the sign of a class is the sign bit (math.Signbit or bit 31)")
+			}
+		}
 		var missing []string
 		for k := 0; k < 10; k++ {
 			if !covered[k] {
@@ -305,6 +347,118 @@ func checkImmediateArithmeticWide(c *core.Ctx, rule string, pkgs []string, floor
 					st.Sample("%s: %s on a value derived from SIMM16 is computed in %d bits", core.FuncName(fn), bo.Op, w)
 					if !ok {
 						c.ReportAt(rule, fn, bo.Pos(), "imm16-arithmetic-in-16-bits:"+bo.Op.String(), fmt.Sprintf("%s computes %s on the 16-bit immediate in %d bits, before it is widened: the result wraps modulo 2^%d (simm16 * 4 of a branch further than 8191 dwords: 0x2000 jumps 32 KiB backwards, 0x4000 stays in place)", core.FuncName(fn), bo.Op, w, w))
+					}
+				}
+			}
+		}
+	}
+}
+
+// checkLaneIndexBounded (R03.46): a lane index is one of 0..63. The lane argument of every operand
+// access in the ALUs is a constant below 64, a loop counter of a loop bounded by 64, a value reduced
+// by & 63 / % 64, a parameter (the caller's lane), or a merge of such values. A lane computed by a
+// bit scan (bits.TrailingZeros64 of EXEC is 64 for EXEC = 0) is not a lane for every input: the ISA
+// gives v_readfirstlane lane 0 when no lane is active, the register file has no lane 64.
+func checkLaneIndexBounded(c *core.Ctx, pkgs []string) {
+	st := c.Rule("R03.46", "every lane argument of an operand access in the two ALUs (ReadOperand / WriteOperand / ReadOperandBytes / WriteOperandBytes) is one of the 64 lanes for every input: a constant below 64, the counter of a loop that runs below 64, a value reduced by & 63 or % 64, a parameter, or a merge of such values. A lane taken from a bit scan (bits.TrailingZeros64(EXEC) is 64 when EXEC is 0) addresses a register that does not exist - v_readfirstlane with no active lane reads lane 0 by the ISA", 400)
+	for _, rel := range pkgs {
+		for _, fn := range c.SrcFuncs(rel) {
+			for _, b := range fn.Blocks {
+				for _, in := range b.Instrs {
+					name, cc := stateMethod(in)
+					switch name {
+					case "ReadOperand", "WriteOperand", "ReadOperandBytes", "WriteOperandBytes":
+					default:
+						continue
+					}
+					st.Instances++
+					c.MarkAnalysed(fn)
+					why := ""
+					seen := map[ssa.Value]bool{}
+					var ok func(v ssa.Value, d int) bool
+					ok = func(v ssa.Value, d int) bool {
+						if seen[v] {
+							return true
+						}
+						seen[v] = true
+						if d > 10 {
+							why = "the lane expression is too deep to classify"
+							return false
+						}
+						switch x := v.(type) {
+						case *ssa.Const:
+							k, isC := core.ConstInt(x)
+							if isC && k >= 0 && k < 64 {
+								return true
+							}
+							why = "the lane is the constant " + x.String()
+							return false
+						case *ssa.Parameter:
+							return true
+						case *ssa.Convert:
+							return ok(x.X, d+1)
+						case *ssa.ChangeType:
+							return ok(x.X, d+1)
+						case *ssa.Phi:
+							// a loop counter: one edge is phi + 1; the loop test bounds it
+							for _, e := range x.Edges {
+								if add, isAdd := e.(*ssa.BinOp); isAdd && add.Op == token.ADD && (add.X == ssa.Value(x) || add.Y == ssa.Value(x)) {
+									continue
+								}
+								if !ok(e, d+1) {
+									return false
+								}
+							}
+							if l := analyseLoop(x); l != nil && l.why == "" {
+								return true
+							}
+							// a merge of lanes (laneid := 0; if ... { laneid = i })
+							isCounter := false
+							for _, e := range x.Edges {
+								if add, isAdd := e.(*ssa.BinOp); isAdd && add.Op == token.ADD && (add.X == ssa.Value(x) || add.Y == ssa.Value(x)) {
+									isCounter = true
+								}
+							}
+							if isCounter {
+								why = "the lane is a counter of a loop whose bound is not recognised as 64"
+								return false
+							}
+							return true
+						case *ssa.BinOp:
+							switch x.Op {
+							case token.AND:
+								if k, isC := core.ConstInt(x.Y); isC && k >= 0 && k <= 63 {
+									return true
+								}
+								if k, isC := core.ConstInt(x.X); isC && k >= 0 && k <= 63 {
+									return true
+								}
+							case token.REM:
+								if k, isC := core.ConstInt(x.Y); isC && k > 0 && k <= 64 {
+									return true
+								}
+							}
+							why = "the lane is computed by " + x.Op.String() + " without a reduction below 64"
+							return false
+						case *ssa.Call:
+							cal := x.Call.StaticCallee()
+							n := "a call"
+							if cal != nil {
+								n = cal.Name()
+								if cal.Pkg != nil {
+									n = cal.Pkg.Pkg.Name() + "." + n
+								}
+							}
+							why = "the lane is the result of " + n + ", which is not bounded below 64 (a bit scan of 0 gives 64)"
+							return false
+						}
+						why = "the lane is " + v.String()
+						return false
+					}
+					good := ok(cc.Args[1], 0)
+					st.Ob(good)
+					if !good {
+						c.ReportAt("R03.46", fn, in.Pos(), "lane-not-bounded:"+core.FuncName(fn), core.FuncName(fn)+" accesses an operand at a lane that is not one of 0..63 for every input: "+why+". With EXEC = 0 v_readfirstlane_b32 reads lane 64 of the source register (the emulator's register file ends at lane 63; the ISA reads lane 0)")
 					}
 				}
 			}
